@@ -12,6 +12,9 @@
      fdselect-enc (fd ...)       -> xBYTES
      fdselect-read nGlyphs nPrivate xDATA -> (ok (fd ...) endpos) | err | panic
      real-layout neg (d1..dm) l  -> xBYTES   (nibble coding of +-0.d1..dm * 10^l)
+     layout seed style (sections) -> (ok (offs ...) hdrOffSize) | fuel
+        section = (f n) | (l n) | (d base (ops)) | (i ((base (ops)) ...)),  op = (o j) | (x a b) | (z j)
+     width def nom w             -> decoded width (units of 1/65536, repaired code path)
    Integer lists may contain (r n v) = n copies of v and (s first n) = first, first+1, ... *)
 
 let outc (f : 'a -> sx) (o : 'a outcome) : sx =
@@ -77,6 +80,23 @@ let () = main_loop (fun c ->
     let data = sx_bytes data in
     outc (fun (l, rest) -> L [A "ok"; L (List.map an l); endpos data rest])
       (m_fdselect_read (sx_n ng) (sx_n np) data)
+  | [A "layout"; _; _; secs] ->
+    let op_of x = (match x with
+      | L [A "o"; j] -> OOffs (sx_nat j)
+      | L [A "x"; a; b] -> ODiff (sx_nat a, sx_nat b)
+      | L [A "z"; j] -> OSize (sx_nat j)
+      | _ -> failwith "bad operand") in
+    let dict_of base ops = { d_base = sx_n base; d_ops = List.map op_of (lst ops) } in
+    let sec_of x = (match x with
+      | L [A "f"; n] -> SFixed (sx_n n)
+      | L [A "l"; n] -> SLate (sx_n n)
+      | L [A "d"; base; ops] -> SDict (dict_of base ops)
+      | L [A "i"; ds] -> SIndex (List.map (fun d -> match d with L [b; o] -> dict_of b o | _ -> failwith "bad dict") (lst ds))
+      | _ -> failwith "bad section") in
+    let secs = List.map sec_of (lst secs) in
+    outc (fun (offs, _) -> L [A "ok"; L (List.map az offs); an (hdr_offsize secs offs)]) (m_layout secs)
+  | [A "width"; def; nom; w] ->
+    az (m_width_decode (sx_z def) (sx_z nom) (m_width_encode (sx_z def) (sx_z nom) (sx_z w)))
   | [A "real-layout"; neg; digits; l] ->
     hexa (m_real_layout (sx_bool neg) (List.map sx_n (lst digits)) (sx_z l))
   | _ -> failwith "bad case")
